@@ -1,7 +1,7 @@
 """C01 — cell-integral kernels compute the form's element tensor."""
 import numpy as np
 
-from .. import cjit, corpus, kernels, lean, numeric, pipeline
+from .. import cjit, corpus, ir_checks, kernels, lean, numeric, pipeline
 
 THEOREMS_C08 = ["Ffcx.LNodes.subscript_in_extent", "Ffcx.LNodes.flatten_inj"]
 THEOREMS_C17 = ["Ffcx.LNodes.global_index_value", "Ffcx.LNodes.float_product_sound"]
@@ -61,7 +61,14 @@ def run(chk):
     chk.lean("FfcxProofs.C08", THEOREMS_C08)
     chk.lean("FfcxProofs.C17", THEOREMS_C17)
     chk.lean("FfcxProofs.C07", THEOREMS_C07)
+    chk.lean(ir_checks.IR_MODULE, ir_checks.TABLE_THEOREMS + ir_checks.FACTORIZE_THEOREMS, extra_files=ir_checks.IR_FILES)
     ents = _entries(chk)
+    # IR-level cores: real tables and real scalar graphs / factorisations vs the Lean models
+    ir_ents = [e for e in corpus.fixed() + corpus.expressions()] + (corpus.generated(chk.seed, 40) if chk.tier == "thorough" else [])
+    with lean.Driver("driver_ir") as d:
+        ir_checks.check_tables(chk, d, ir_ents, 1e-6, 1e-9)
+        ir_checks.check_factorization(chk, d, ir_ents)
+        ir_checks.check_factorization_probes(chk, d)
     opts = [{}]
     if chk.tier == "thorough":
         opts += [{"scalar_type": "float32"}, {"scalar_type": "complex128"}]
